@@ -67,8 +67,14 @@ def attribute(prop, scen, rej):
             out |= {'C02'} if kinds else {'C01'}
             if any(s.get('op') == 'ucall' for s in scen['steps']):
                 out.add('C01')
+        elif g == 'serve':
+            out.add('C10')
+            if fam == 'C11':
+                out.add('C11')   # a connection that stops serving without a fault has been blocked for good
         elif g == 'status':
             out |= {'C03'}
+            if fam in ('C09', 'C13'):
+                out.add(fam)     # a fabricated success (io.EOF / nil) after a failure or a hostile reply
             if evn == 'SRecvRet':
                 out.add('C02')      # "a stream that completed successfully is never reported as cancelled or failed"
             if evn == 'URet':
